@@ -10,20 +10,20 @@ import (
 func init() { register("C05", "exploration", runC05) }
 
 func runC05(c *Check, rng *rand.Rand) {
-	c.Rule = "differential: rcproxy hashkit.Hash vs bit-by-bit CRC16/XMODEM + hash-tag rule; exhaustive over all strings of length <= L on the alphabet {'{','}','a','b',NUL} and all 1- and 2-byte strings, plus random brace-heavy binary keys; distinct = distinct brace arrangements (shape) seen"
+	c.Rule = "differential: rcproxy hashkit.Hash vs bit-by-bit CRC16/XMODEM + hash-tag rule; exhaustive over all strings of length <= L on the alphabet {'{','}','a','b',NUL} and all 1- and 2-byte strings, plus random brace-heavy binary keys; distinct = distinct brace arrangements (shape) seen; plus the decoder life-cycle monitor: histories of requests on successive connections through the real client decoder (delivery in pieces, abandoned and invalid requests, requests over the size limit, every answered message returned to MsgPool and decoded into again; keys up to 3 KB, hash tags beyond byte 256, bytes >= 0x80, slots 0 and 16383): the slot every fragment is filed under must equal the reference slot of its first key"
 	c.Assumptions = []string{"reference self-checked on published vectors (123456789 -> 0x31C3, foo -> 12182, {user1000}.following -> 3443)"}
-	exh, n := "7", "2000000"
+	exh, n, life := "7", "2000000", "60000"
 	if c.Thorough() {
-		exh, n = "9", "200000000"
+		exh, n, life = "9", "200000000", "3000000"
 	}
-	r := runE2(c, "", "c05", 30*time.Minute, "--exh", exh, "--n", n, "--workers", "16")
+	r := runE2(c, "", "c05", 30*time.Minute, "--exh", exh, "--n", n, "--workers", "16", "--life", life)
 	if r != nil {
 		c.DistinctN(r.Distinct)
 		c.SetExtra("exhaustive", true)
 		c.SetExtra("exhaustive_scope", "all strings of length <= "+exh+" over {,},a,b,NUL; all 1- and 2-byte strings")
 	}
 	if c.Thorough() {
-		if r2 := runE2(c, "race", "c05", 30*time.Minute, "--exh", "7", "--n", "2000000", "--workers", "16"); r2 != nil {
+		if r2 := runE2(c, "race", "c05", 30*time.Minute, "--exh", "7", "--n", "2000000", "--workers", "16", "--life", "200000"); r2 != nil {
 			c.DistinctN(0)
 		}
 	}
